@@ -12,6 +12,7 @@ C01 — Results do not depend on the container format; inputs are never modified
 -/
 import SkNet.Lemmas.Container
 import SkNet.Lemmas.Ownership
+import SkNet.Lemmas.WL
 
 namespace SkNet.C01
 open SkNet SkNet.Fmt SkNet.Own
@@ -127,6 +128,44 @@ example :
     canon 3 (toCsrRows (.csr 3 [[(2, 2), (0, 2)], [(1, 5)]])) = [[(0, 2), (2, 2)], [(1, 5)]] ∧
     canon 3 (toCsrRows (.csc 2 [[(0, 2)], [(1, 5)], [(0, 2)]])) = [[(0, 2), (2, 2)], [(1, 5)]] := by
   decide +kernel
+
+/-! ## a kernel that walks `indptr / indices` directly: Weisfeiler-Lehman on unsorted indices -/
+
+/-- **respects_denote (WL)**. The Weisfeiler-Lehman kernel reads the stored column indices of each row in
+storage order; with a hash that identifies permutations (exact arithmetic) the colours do not depend on
+that order: a CSR matrix with unsorted indices gives the same colours as the sorted one. -/
+theorem wl_unsorted_same {H : Type} {ops : WL.HashOps H} (hx : WL.ExactOps ops) (adj adj' : List (List Nat))
+    (hlen : adj.length = adj'.length)
+    (hperm : ∀ i, i < adj.length → (adj.getD i []).Perm (adj'.getD i [])) (maxIter : Option Nat) :
+    WL.colorWL ops adj maxIter = WL.colorWL ops adj' maxIter := by
+  have htr : ∀ L : List Nat, WL.triples ops adj L = WL.triples ops adj' L := by
+    intro L
+    unfold WL.triples
+    rw [← hlen]
+    unfold tab
+    apply List.map_congr_left
+    intro i hi
+    have hi' : i < adj.length := List.mem_range.1 hi
+    have : ops.hashOf ((adj.getD i []).map fun j => L.getD j 0) = ops.hashOf ((adj'.getD i []).map fun j => L.getD j 0) :=
+      (hx.hash_iff _ _).2 ((hperm i hi').map _)
+    rw [this]
+  have hround : ∀ L : List Nat, WL.round ops adj L = WL.round ops adj' L := by
+    intro L
+    unfold WL.round WL.roundAssign
+    rw [htr L, hlen]
+  have hcol : ∀ (m : Nat) (L : List Nat) (ch : Bool), WL.coloring ops adj m L ch = WL.coloring ops adj' m L ch := by
+    intro m
+    induction m with
+    | zero => intro L ch; rfl
+    | succ m ih =>
+      intro L ch
+      unfold WL.coloring
+      cases ch with
+      | false => rfl
+      | true => simp only [if_true]; rw [hround L]; exact ih _ _
+  unfold WL.colorWL
+  rw [hlen]
+  exact congrArg Prod.fst (hcol _ _ _)
 
 /-! ## ownership -/
 
